@@ -71,6 +71,9 @@ pub struct EncSpec {
     pub trailing_magic: bool,
     /// put the main index at the very end of the file (after the zoom levels)
     pub index_last: bool,
+    /// leave the total summary out (offset 0) even though the version allows one
+    #[serde(default)]
+    pub no_summary: bool,
     pub autosql: Option<String>,
 }
 
@@ -439,7 +442,7 @@ pub fn encode(spec: &EncSpec) -> Encoded {
         }
         _ => 0,
     };
-    let summary_off = if spec.version >= 2 {
+    let summary_off = if spec.version >= 2 && !spec.no_summary {
         let o = w.pos();
         w.bytes(&[0u8; 40]);
         o
